@@ -27,7 +27,7 @@ COMPONENTS = {
              'Individual.__eq__ / __hash__ (set de-duplication)', 'the five run loops'],
     'stub': ['user objective', 'PRNG seam (also reports the tournament draw)', 'joblib', 'time.time', 'uuid1'],
 }
-PROBES_EXPECTED = ['truncate_calls', 'truncate_cut_inside_front', 'truncate_with_duplicates', 'crowding_calls', 'crowding_small_front',
+PROBES_EXPECTED = ['truncate_other_k', 'truncate_k_ge_len', 'truncate_calls', 'truncate_cut_inside_front', 'truncate_with_duplicates', 'crowding_calls', 'crowding_small_front',
                    'crowding_exact_formula', 'crowding_with_ties', 'crowding_zero_range', 'aliased_features', 'tournament_calls',
                    'tournament_front_decides', 'tournament_dominance_decides', 'tournament_random']
 
@@ -39,12 +39,28 @@ def _same(a, b):
 
 
 def hooks(ctx, w, D):
+    st = {'t': 0}
+
     def truncate(orig, population, size):
         pool = list(population)
         res = orig(population, size)
+        ctx.probe('truncate_calls')
+        st['t'] += 1
+        if judge_truncate(pool, size, res) and st['t'] <= 40:
+            # the optimisers always cut 2N -> N; the property quantifies over all k >= 1, so the same ranked pool is truncated
+            # again (the function is pure) to 1, to its own length, beyond its length and to a seeded size
+            n = len(pool)
+            for k in sorted({1, n, n + 3, 1 + D.dec('work', ('tk', st['t']), n + 2)} - {size}):
+                ctx.probe('truncate_other_k')
+                if k >= n:
+                    ctx.probe('truncate_k_ge_len')
+                if not judge_truncate(pool, k, orig(list(pool), k)):
+                    break
+        return res
+
+    def judge_truncate(pool, size, res):
         site = 'nondominated_truncate'
         ctx.check()
-        ctx.probe('truncate_calls')
         distinct = []
         for p in pool:
             if not any(_same(p, q) for q in distinct):
@@ -55,24 +71,24 @@ def hooks(ctx, w, D):
         if len(res) != exp_len:
             ctx.violation('trunc_len', site, 'truncate(pool of %d with %d distinct designs, %d) returned %d individuals, expected %d'
                           % (len(pool), len(distinct), size, len(res), exp_len))
-            return res
+            return False
         for a in range(len(res)):
             if not any(res[a] is p for p in pool):
                 ctx.violation('trunc_len', site, 'returned an individual that is not in the pool')
-                return res
+                return False
             for b in range(a + 1, len(res)):
                 if _same(res[a], res[b]):
                     ctx.violation('trunc_dup', site, 'design %r returned twice' % (list(res[a].vector),))
-                    return res
+                    return False
         discarded = [p for p in distinct if not any(_same(p, r) for r in res)]
         if not discarded or not res:
-            return res
+            return True
         worst_kept = max(r.features['front_number'] for r in res)
         best_disc = min(d.features['front_number'] for d in discarded)
         if worst_kept > best_disc:
             ctx.violation('trunc_rank_order', site, 'kept an individual of front %d while a design of front %d was discarded'
                           % (worst_kept, best_disc))
-            return res
+            return False
         if len(distinct) == len(pool) and worst_kept == best_disc:
             ctx.probe('truncate_cut_inside_front')
             kept_cd = [r.features['crowding_distance'] for r in res if r.features['front_number'] == worst_kept]
@@ -80,7 +96,8 @@ def hooks(ctx, w, D):
             if kept_cd and disc_cd and min(kept_cd) < max(disc_cd):
                 ctx.violation('trunc_crowding_order', site, 'on the cut front %d a member with crowding distance %r was kept while one '
                               'with %r was discarded' % (worst_kept, min(kept_cd), max(disc_cd)))
-        return res
+                return False
+        return True
 
     def crowding(orig, front):
         members = list(front)
